@@ -10,6 +10,18 @@ import concrun
 WHICH = ('C06',)
 
 
+def stream(mk):
+    vals, err = [], None
+    try:
+        for x in mk():
+            vals.append(x)
+    except (KeyboardInterrupt, SystemExit):
+        raise
+    except BaseException as e:  # noqa
+        err = {'Sub': 'FilterException'}.get(type(e).__name__, type(e).__name__)
+    return {'vals': vals, 'err': err}
+
+
 def view_cases(rng):
     import lazy_dataset
     from lazy_dataset.core import FilterException, ProfilingDataset
@@ -23,21 +35,33 @@ def view_cases(rng):
     class Sub(FilterException):
         pass
 
+    class Selected(Exception):
+        pass
+    kinds = {x: rng.choice(['filter', 'sub', 'selected']) for x in bad}
+
     def f(x):
         if x == other:
             raise ValueError(x)
         if x in bad:
-            raise (Sub(x) if x % 2 else FilterException(x))
+            raise {'filter': FilterException, 'sub': Sub, 'selected': Selected}[kinds[x]](x)
         return x * 10
+    w, b = rng.choice([(1, 1), (1, 3), (2, 2), (2, 4), (3, 3)])
+    # the selection as the API accepts it: True (= FilterException), one class, a tuple of classes
+    sel = rng.choice([True, FilterException, (FilterException,), (KeyError, FilterException), Selected, (Selected, KeyError),
+                      (Selected, FilterException)])
+    caught = (FilterException,) if sel is True else (sel if isinstance(sel, tuple) else (sel,))
+    cls_of = {'filter': FilterException, 'sub': Sub, 'selected': Selected}
     want_vals, want_err = [], None
     for x in range(n):
         if x == other:
             want_err = 'ValueError'
             break
-        if x not in bad:
-            want_vals.append(x * 10)
-    w, b = rng.choice([(1, 1), (1, 3), (2, 2), (2, 4), (3, 3)])
-    sel = rng.choice([True, (FilterException,), (KeyError, FilterException)])
+        if x in bad:
+            if issubclass(cls_of[kinds[x]], caught):
+                continue
+            want_err = 'FilterException' if kinds[x] in ('filter', 'sub') else 'Selected'
+            break
+        want_vals.append(x * 10)
     keyed = rng.random() < 0.4
     src = {f'k{j}': j for j in range(n)} if keyed else list(range(n))
 
@@ -54,7 +78,7 @@ def view_cases(rng):
     with warnings.catch_warnings():
         warnings.simplefilter('ignore')
         for name, mkv in views.items():
-            got = run_stream(mkv)
+            got = stream(mkv)
             if got != {'vals': want_vals, 'err': want_err}:
                 fails.append(('catch_filter_exception_view', {'view': name, 'n': n, 'raising_selected': sorted(bad), 'raising_other': other,
                                                                'workers': w, 'buffer': b, 'selection': repr(sel), 'keyed': keyed,
